@@ -669,11 +669,15 @@ class VM:
                 # For JSFunction, check _prototype attribute (if set and not None)
                 # For JSCallableObject and other constructors, use get("prototype")
                 proto = None
-                if (
-                    isinstance(constructor, JSFunction)
-                    and getattr(constructor, "_prototype", None) is not None
-                ):
-                    proto = constructor._prototype
+                if isinstance(constructor, JSFunction):
+                    target = constructor
+                    while hasattr(target, "_original_func"):
+                        target = target._original_func
+                    proto = getattr(target, "_prototype", None)
+                    if not isinstance(proto, JSObject):
+                        raise JSTypeError(
+                            "Function has non-object prototype in instanceof check"
+                        )
                 elif isinstance(constructor, JSObject):
                     # Try get("prototype") first for callable objects, fall back to _prototype
                     proto = constructor.get("prototype")
@@ -738,7 +742,7 @@ class VM:
             self._discard_frame_state(popped_frame)
             # For constructor calls, return the new object unless result is an object
             if popped_frame.is_constructor_call:
-                if not isinstance(result, JSObject):
+                if not isinstance(result, (JSObject, JSFunction)):
                     result = popped_frame.new_target
             self.stack.append(result)
 
@@ -2519,6 +2523,12 @@ class VM:
         proto = constructor.get("prototype") if isinstance(constructor, JSObject) else None
         return proto if isinstance(proto, JSObject) else None
 
+    def _object_prototype(self) -> Optional[JSObject]:
+        """Object.prototype of this realm."""
+        constructor = self.globals.get("Object")
+        proto = getattr(constructor, "_prototype", None)
+        return proto if isinstance(proto, JSObject) else None
+
     @staticmethod
     def _function_has_own(func: JSFunction, key: str) -> bool:
         """Own properties of a function object."""
@@ -2699,12 +2709,12 @@ class VM:
         new_target: JSValue = None,
     ) -> None:
         """Invoke a JavaScript function."""
-        # Handle bound functions
-        if hasattr(func, "_bound_this"):
-            this_val = func._bound_this
-        if hasattr(func, "_bound_args"):
+        # Handle bound functions (a bound function may itself be bound again:
+        # the innermost binding decides this, the arguments accumulate)
+        while hasattr(func, "_original_func"):
+            if not is_constructor:
+                this_val = func._bound_this
             args = list(func._bound_args) + list(args)
-        if hasattr(func, "_original_func"):
             func = func._original_func
 
         compiled = getattr(func, "_compiled", None)
@@ -2769,11 +2779,17 @@ class VM:
         constructor = self.stack.pop()
 
         if isinstance(constructor, JSFunction):
+            # A bound function constructs its target
+            target = constructor
+            while hasattr(target, "_original_func"):
+                target = target._original_func
             # Create new object
             obj = JSObject()
             # Set prototype from constructor's prototype property
-            if hasattr(constructor, "_prototype"):
-                obj._prototype = constructor._prototype
+            proto = getattr(target, "_prototype", None)
+            obj._prototype = (
+                proto if isinstance(proto, JSObject) else self._object_prototype()
+            )
             # Call constructor with new object as 'this'
             # Mark this as a constructor call so RETURN knows to return the object
             self._invoke_js_function(
